@@ -810,7 +810,7 @@ func init() {
 	core.Register(&core.Check{
 		ID:          "C02",
 		Level:       "exploration",
-		Rule:        "source texts enumerated exhaustively (G-syn trees by size in two renderings, statement lists, statement adjacency pairs/triples with each separator, all literal spellings and single-byte string contents, comments at every statement boundary, shipped programs and their single-byte mutations); a text is a case iff the parser accepts it without error/continuation. Oracle: canonical dump of parse(t) equals canonical dump of parse(print(parse(t))) in normal mode (with comments) and compact mode (comments dropped from both), and the printed text parses without error. Also: all operator triples in 8 groupings of four operands and quadruples of representative operators in the 14 groupings of five, every token kind in parameter position, ten block/expression forms nested up to 1000 deep, and the normalised text repl.EvalOne returns (REPL history) under all 32 combinations of its formatting options for programs with functions, comments and macros. Non-trivial = accepted by the parser; distinct by text.",
+		Rule:        "source texts enumerated exhaustively (G-syn trees by size in two renderings, statement lists, statement adjacency pairs/triples with each separator, all literal spellings and single-byte string contents, comments at every statement boundary, shipped programs and their single-byte mutations); a text is a case iff the parser accepts it without error/continuation. Oracle: canonical dump of parse(t) equals canonical dump of parse(print(parse(t))) in normal mode (with comments) and compact mode (comments dropped from both), and the printed text parses without error. Also: all operator triples in 8 groupings of four operands and quadruples of representative operators in the 14 groupings of five, every token kind in parameter position, ten block/expression forms nested up to 1000 deep, and the normalised text repl.EvalOne returns (REPL history) under all 32 combinations of its formatting options for programs with functions, comments and macros. Non-trivial = accepted by the parser; distinct by text. Also: strings holding code points at every boundary of the printer's escape forms, raw and escaped; a round trip of dot / index / prefix forms and every literal after a second call of the exported token.Init().",
 		Assume:      []string{"canonical tree dump of internal/obs (numbers by value, everything else by token type+literal)"},
 		QuickCap:    100 * time.Second,
 		ThoroughCap: 20 * time.Minute,
